@@ -159,13 +159,45 @@ def key(v):
     return v if isinstance(v, int) else sum(key(x) for x in v)
 
 
-PREDS = [lambda v: True, lambda v: False, lambda v: key(v) % 2 == 0, lambda v: key(v) > 0,
-         lambda v: key(v) % 3 == 0, lambda v: key(v) < 3]
-FUNS = [lambda v: v, lambda v: key(v) + 100, lambda v: -key(v), lambda v: wrap64(key(v) * key(v)), lambda v: (v,)]
+class O(int):
+    """an Int object with a registered identity: the elements of the leaf containers are numbered in the order the
+    leaves (prefix order) yield them; -1 is the shared flag object.  A plain int is an object whose identity is of no
+    interest (a Range's counter, a fresh object made by a map function or a predicate)."""
+    def __new__(cls, z, oid):
+        o = int.__new__(cls, z); o.oid = oid
+        return o
+
+
+FLAG = O(777, -1)
+# a predicate ANSWERS with an object; None = NULL = reject.  0..5 answer with their own argument, 6..8 with another
+# non-NULL object (shared flag, fresh box, fresh copy of the value): only NULL / non-NULL may matter to Filter
+_self = lambda c: (lambda v: v if c(v) else None)
+PREDS = [lambda v: v, lambda v: None, _self(lambda v: key(v) % 2 == 0), _self(lambda v: key(v) > 0),
+         _self(lambda v: key(v) % 3 == 0), _self(lambda v: key(v) < 3),
+         lambda v: FLAG if key(v) % 2 == 0 else None, lambda v: (v,) if key(v) > 0 else None,
+         lambda v: int(key(v)) if key(v) % 3 == 0 else None]
+FUNS = [lambda v: v, lambda v: key(v) + 100, lambda v: -key(v), lambda v: wrap64(key(v) * key(v)), lambda v: (v,),
+        lambda v: FLAG, lambda v: int(key(v))]
+
+
+def accepts(pid, v):
+    return PREDS[pid % len(PREDS)](v) is not None
 
 
 def show(v):
+    if isinstance(v, O):
+        return '%d@%d' % (v, v.oid)
     return str(v) if isinstance(v, int) else '(' + ' '.join(show(x) for x in v) + ')'
+
+
+class LeafCtx:
+    def __init__(self, leaves):
+        self.leaves, self.n = leaves, 0
+
+    def objs(self, xs):
+        out = [O(int(x), self.n + i) for i, x in enumerate(xs)]
+        self.n += len(xs)
+        return out
 
 
 def haslen(e):
@@ -235,12 +267,16 @@ def ev(e, leaves):
     """the list of items the expression denotes; `leaves` = iterator over the observed forward
     sequences of the Table/Tree leaves (their order is not fixed by this property)"""
     k = e['k']
+    if not isinstance(leaves, LeafCtx):
+        leaves = LeafCtx(leaves)
     if k in LEAVES and e['xs'] is None:
         raise Undef('history with an invalid operation')
-    if k in ('arr', 'list', 'tup', 'tupr'):
+    if k == 'tupr':
         return list(e['xs'])
+    if k in ('arr', 'list', 'tup'):
+        return leaves.objs(e['xs'])               # the yielded items ARE the stored elements (identity)
     if k in ('tab', 'tree'):
-        return list(next(leaves))
+        return leaves.objs(next(leaves.leaves))
     if k == 'range':
         return positions(*range_params(e['args']))
     if k in ('slice', 'rev'):
@@ -260,7 +296,7 @@ def ev(e, leaves):
             raise Undef('enumerate over an iterable without len')
         return [(i, x) for i, x in enumerate(xs)]
     if k == 'filter':
-        return [x for x in ev(e['sub'][0], leaves) if PREDS[e['id'] % len(PREDS)](x)]
+        return [x for x in ev(e['sub'][0], leaves) if accepts(e['id'], x)]     # the accepted ELEMENTS themselves
     if k == 'map':
         return [FUNS[e['id'] % len(FUNS)](x) for x in ev(e['sub'][0], leaves)]
     raise ValueError(k)
@@ -327,7 +363,7 @@ def oracle(case, impl, spec=None):
             its = items(o)
             want = sorted(set(n['xs']))
             try:
-                got = [int(x) for x in its]
+                got = [int(x.split('@')[0]) for x in its]
             except ValueError:
                 return '%s leaf: forward walk %s' % (n['k'], o)
             if sorted(got) != want:
@@ -436,8 +472,11 @@ def feats(e):
             elif k == 'enum':
                 xs = list(enumerate(subs[0])); f.add('enumerate')
             elif k == 'filter':
-                p = PREDS[n['id'] % len(PREDS)]
+                p = lambda x, _i=n['id']: accepts(_i, x)
                 xs = [x for x in subs[0] if p(x)]; f.add('filter')
+                if n['id'] % len(PREDS) >= 6:
+                    f.add('filter-answer-is-another-object')
+                    if len(xs) >= 2: f.add('filter-answer-is-another-object-2-accepted')
                 if subs[0] and not p(subs[0][-1]): f.add('filter-rejects-last')
                 if subs[0] and not p(subs[0][0]): f.add('filter-rejects-first')
                 if subs[0] and not xs: f.add('filter-rejects-all')
@@ -445,6 +484,7 @@ def feats(e):
             else:
                 fn = FUNS[n['id'] % len(FUNS)]
                 xs = [fn(x) for x in subs[0]]; f.add('map')
+                if n['id'] % len(FUNS) >= 5: f.add('map-result-is-shared-or-copy')
                 if n['sub'][0]['k'] in ('slice', 'rev', 'zip', 'enum', 'filter', 'map'): f.add('view-of-view')
             if k in LEAVES:
                 f.add(k + ('-empty' if not xs else '-one' if len(xs) == 1 else '-many'))
@@ -662,6 +702,36 @@ def gen_history(rng, kind, maxops=12):
     return e
 
 
+def gen_answer(rng, maxlen=9):
+    """a Filter (or Map) whose predicate (function) answers with an object other than its argument, somewhere in a nest"""
+    u = gen_expr(rng, rng.choice([0, 0, 1, 1, 2]), maxlen)
+    e = {'k': 'filter', 'id': rng.choice([6, 7, 8]), 'sub': [u]} if rng.random() < .8 else {'k': 'map', 'id': rng.choice([5, 6]), 'sub': [u]}
+    r = rng.random()
+    if r < .2: e = {'k': 'map', 'id': rng.choice([0, 1, 4, 5, 6]), 'sub': [e]}
+    elif r < .4: e = {'k': 'filter', 'id': rng.randrange(len(PREDS)), 'sub': [e]}
+    elif r < .55: e = {'k': 'zip', 'sub': [e, {'k': 'range', 'args': [rng.randrange(0, 12)], 'sub': []}][::rng.choice([1, -1])]}
+    elif r < .6: e = {'k': 'zip', 'sub': [e]}
+    return e
+
+
+def answer_boundary():
+    """predicates 6..8 (accepting answer = another non-NULL object) and map functions 5..6 over every underlying
+    iterable and in nested views; at least two accepted elements"""
+    out = []
+    unders = ['arr 1,2,3,4,5,6,8,9', 'list 2,4,7,10,11,12', 'tup 0,1,2,3,4,5,6', 'tab 2,3,4,6,9,12', 'tree 2,3,4,6,9,12', 'range 1,13',
+              'range 12,0,-1'.replace('12,0', '0,13'), 'listh n1,2,3,4,6/x0/p12', 'arrh n6,3,2,4/s/p12', 'tuph n1,2,4,6/x0', 'tabh k2/k4/k6/k3/r3/k12',
+              'treeh k6/k2/k4/k12/r6/k3', 'slice 1,_ arr 1,2,3,4,6,12', 'rev list 1,2,3,4,6,12', 'map 0 arr 2,3,4,6,12', 'map 1 arr 2,4,8,14',
+              'zip 2 arr 1,1,2,3 list 1,2,2,3', 'enum arr 1,2,3,4,5', 'filter 3 arr -2,2,3,4,6,12', 'filter 6 arr 2,3,4,6,12']
+    for u in unders:
+        for p in (6, 7, 8):
+            out += ['filter %d %s' % (p, u), 'map 0 filter %d %s' % (p, u), 'filter %d map 6 %s' % (p, u), 'filter 2 filter %d %s' % (p, u),
+                    'filter %d filter 0 %s' % (p, u), 'zip 2 filter %d %s range 9' % (p, u), 'zip 2 range 9 filter %d %s' % (p, u)]
+        out += ['map 5 %s' % u, 'map 6 %s' % u, 'filter 6 map 5 %s' % u, 'map 6 filter 8 %s' % u]
+        if not u.startswith('filter'):
+            out += ['enum map 6 %s' % u]
+    return out
+
+
 def history_boundary():
     out = []
     for k in ('arrh', 'listh', 'tuph'):
@@ -839,10 +909,10 @@ def run(ctx):
         'with arguments omitted / negative / beyond; or an Array/List/Tuple/Table/Tree after a seeded VALID mutation history of <= 12 operations '
         '(push, pop, pop_at/rem at head, middle, tail, push_at, resize down/up, concat, sort; set/rem/resize with colliding keys for Table, '
         'root and two-children removals for Tree; head/tail removal, draining and refilling frequent)) under up to 3 view layers slice(a,b,s)/reverse/zip(k inputs)/enumerate/'
-        'filter(6 predicates)/map(5 functions).  Streams: corpus of repaired witnesses; hand-written boundary set; EXHAUSTIVE '
+        'filter(9 predicates, three of which answer "accept" with an object OTHER than their argument: shared flag, fresh box, fresh copy)/map(7 functions).  Streams: corpus of repaired witnesses; hand-written boundary set; EXHAUSTIVE '
         'boxes (all range(a,b,s) and all slice(a,b,s) over a container, arguments in [-B,B] or omitted); seeded ranges of magnitude up to 2^62-1; seeded random nested '
         'expressions.  For each case the harness prints len, forward walk (cut off at 2*len+4), backward walk, get(0..len-1); the '
-        'oracle recomputes the denoted list from the definitions in Python.  A case is non-trivial when it exercises at least one '
+        'oracle recomputes the denoted list from the definitions in Python, items compared BY IDENTITY (value@number for the registered elements of the leaves).  A case is non-trivial when it exercises at least one '
         'boundary predicate of props/C11.py:feats (empty/one/many leaf, negative step, length not divisible by the step, '
         'argument omitted/negative-from-end/beyond the ends, empty selection, zip arity and unequal lengths, filter rejecting '
         'first/last/all, view of view ...; histogram in coverage.features); distinct = distinct implementation transcripts')
@@ -927,7 +997,7 @@ def run(ctx):
                 ctx.notes.append('open finding %s no longer reproduces on its witness %s' % (f['signature'], probe))
 
     d.feed(CORPUS, 'corpus')
-    d.feed(boundary_cases() + history_boundary(), 'boundary')
+    d.feed(boundary_cases() + history_boundary() + answer_boundary(), 'boundary')
     rng = ctx.rng
     if quick:
         B = 12
@@ -946,6 +1016,7 @@ def run(ctx):
                 cases.append('slice %s %s %s' % (a_s([rng.choice(opt_box(B)), rng.choice(opt_box(B)), rng.choice(allsteps)]),
                                                  kind, a_s(contents(rng, n, kind))))
         cases += [big_range(rng) for _ in range(1500)]
+        cases += [unparse(gen_answer(rng)) for _ in range(4000)]
         # every container kind after a seeded mutation history, bare and under one view
         for kind in KINDS:
             cases += [unparse(gen_history(rng, kind)) for _ in range(4000)]
@@ -970,6 +1041,7 @@ def run(ctx):
                 cases.append('slice %s %s %s' % (a_s([rng.choice(opt_box(B)), rng.choice(opt_box(B)), rng.choice([t for t in opt_box(B) if t != 0])]),
                                                  kind, a_s(contents(rng, n, kind))))
         cases += [big_range(rng) for _ in range(20000)]
+        cases += [unparse(gen_answer(rng, rng.choice([9, 20]))) for _ in range(60000)]
         for kind in KINDS:
             cases += [unparse(gen_history(rng, kind, rng.choice([6, 12, 20]))) for _ in range(40000)]
             cases += [rng.choice(['rev %s', 'slice _,_,2 %s', 'slice 1,-1 %s', 'enum %s', 'filter 2 %s', 'map 1 %s', 'zip 2 %s range 4', 'slice _,_,-2 %s'])
@@ -1010,6 +1082,7 @@ def run(ctx):
             print('CORR', x[0], '\n   ', x[4])
 
     def extra(dd):
+        dd.feed(answer_boundary() + [unparse(gen_answer(rng)) for _ in range(10000)])
         dd.feed([unparse(gen_expr(rng, rng.choice([1, 2, 3]), 9)) for _ in range(20000)])
         preshrink()
     preshrink()
